@@ -158,7 +158,28 @@ def _holds_relocate(ctx, inp, out):
     return None
 
 
+def _impl_stored_history(inp):
+    return [_impl_stored(st) for st in inp["steps"]]
+
+
+def _holds_stored_history(ctx, inp, out):
+    for i, o in enumerate(out):
+        if o.get("file_written"):
+            return f"step {i + 1}: saving failed but a file was written at the target path"
+    return None
+
+
+def _cmp_stored_history(inp, io, mo):
+    for i, (a, b) in enumerate(zip(io, mo)):
+        msg = _cmp_sorted_val(inp["steps"][i], a, b)
+        if msg:
+            return f"step {i + 1} of {len(io)} (after earlier saves with other audio directories in the same process): {msg}"
+    return None
+
+
 OPS = {
+    "stored_history": Op("stored_history", _impl_stored_history, holds=_holds_stored_history, compare=_cmp_stored_history,
+                         nontrivial=lambda i, o: any("val" in x for x in o)),
     "path_parse": Op("path_parse", _impl_parse, model_op="parse"),
     "path_relative_to": Op("path_relative_to", _impl_rel, model_op="relative_to"),
     "path_join": Op("path_join", _impl_join, model_op="join"),
@@ -253,6 +274,17 @@ def _correspondence(ctx):
     ctx.run_cases(OPS["stored"], _wf(ctx, stored))
     ctx.run_cases(OPS["relocate"], _wf(ctx, reloc))
     ctx.run_cases(OPS["stored"], _wf(ctx, _mixed_outside(random.Random("C18-mixed"))))
+    # histories: the same recordings saved again under other audio directories (ancestor, the base, none, outside)
+    hist = []
+    for c in _wf(ctx, stored[::6]):
+        base = c["audio_dir"]
+        if base is None:
+            continue
+        anc = str(PurePosixPath(base).parent)
+        hist.append({"steps": [c, dict(c, audio_dir=anc), dict(c, audio_dir=None), dict(c, audio_dir=base + "/nowhere"),
+                               dict(c, audio_dir="/"), c]})
+    ctx.run_cases(OPS["stored_history"], hist)
+    ctx.tally("stored-history cases (6 saves each)", len(hist))
 
 
 def run(ctx):
